@@ -18,7 +18,7 @@ use std::net::{Ipv4Addr, SocketAddrV4};
 use std::rc::Rc;
 
 const IMM_FORGERIES: [&str; 7] = ["authentic", "other-value", "bit-flip", "empty", "over-long", "mutable-shaped", "truncated"];
-const MUT_FORGERIES: [&str; 14] = ["authentic", "authentic-older-seq", "authentic-same-seq-other-value", "other-key", "other-salt", "no-salt-sig", "altered-seq", "altered-value", "flip-k", "flip-sig", "over-long-v", "ro-flagged", "short-k", "immutable-shaped"];
+const MUT_FORGERIES: [&str; 16] = ["authentic", "authentic-older-seq", "authentic-same-seq-other-value", "negated-seq", "seq-plus-2-pow-32", "other-key", "other-salt", "no-salt-sig", "altered-seq", "altered-value", "flip-k", "flip-sig", "over-long-v", "ro-flagged", "short-k", "immutable-shaped"];
 const SIG_FORGERIES: [&str; 11] = ["authentic", "authentic-older", "authentic-newer", "other-infohash", "other-timestamp", "other-key", "flip-sig", "mixed-valid-invalid", "empty-entry", "short-entry", "double-entry"];
 
 #[derive(Clone)]
@@ -62,6 +62,9 @@ fn mutable_reply(tr: &Truth, forgery: &str, rng: &mut Rng) -> (B, bool) {
         "other-salt" => sg = sign_mutable(&tr.signer, seq, &v, Some(b"another salt")),
         "no-salt-sig" => sg = sign_mutable(&tr.signer, seq, &v, if salt.is_some() { None } else { Some(b"x") }),
         "altered-seq" => seq += 1,
+        // the genuine signature replayed under a seq that differs only in sign / only above bit 31
+        "negated-seq" => seq = -seq,
+        "seq-plus-2-pow-32" => seq = seq.wrapping_add(1 << 32),
         "altered-value" => v.push(b'!'),
         "flip-k" => k[rng.usize(32)] ^= 1 << rng.usize(8),
         "flip-sig" => sg.sig[rng.usize(64)] ^= 1 << rng.usize(8),
@@ -144,7 +147,7 @@ pub fn scenario(r: &mut Report, seed: u64) {
         signer,
         other,
         salt,
-        seq: rng.below(50) as i64,
+        seq: 1 + rng.below(50) as i64,
         mut_value: rng.blob(0, 60),
         ih: rng.array(),
         ts: 1_790_000_000_000_000 + rng.below(1_000_000),
@@ -311,6 +314,15 @@ pub fn scenario(r: &mut Report, seed: u64) {
             }
             None => salts.push(Some(b"x".to_vec())),
         }
+        // half of the time a lookup of the same 20-byte target that knows neither key nor salt (get_closest_nodes /
+        // find_node) is already running when these callers arrive: they join it
+        let mut keyless: Option<Task<usize>> = None;
+        if rng.bool() {
+            let (a0, t0) = (a.clone(), Id::from(tr.mut_target));
+            let now = w.now();
+            keyless = Some(if rng.bool() { Task::new(now, async move { a0.get_closest_nodes(t0).await.len() }) } else { Task::new(now, async move { a0.find_node(t0).await.len() }) });
+            r.count("mutable_callers_joining_a_keyless_lookup");
+        }
         let starts: Vec<u64> = (0..salts.len()).map(|i| w.now() + delays[i % 3] + (i as u64 / 3) * 25 * MS).collect();
         let got = super::net::staggered(&w, &starts, |i| { let (a, s) = (a.clone(), salts[i].clone()); Box::pin(async move { a.get_mutable(&pk, s.as_deref(), None).collect::<Vec<dht::MutableItem>>().await }) as Pin<Box<dyn Future<Output = Vec<dht::MutableItem>>>> }, bound);
         for (i, g) in got.into_iter().enumerate() {
@@ -325,6 +337,14 @@ pub fn scenario(r: &mut Report, seed: u64) {
             }
             if i >= 3 {
                 r.count("mutable_callers_with_neighbouring_salt");
+            }
+        }
+        if let Some(mut k) = keyless.take() {
+            let end = w.now() + 60 * SEC;
+            while !k.poll(w.now()) && w.now() < end {
+                if !matches!(w.step_until(end), Step::Node(_) | Step::Raw(_)) {
+                    break;
+                }
             }
         }
         let ihj = Id::from(tr.ih);
